@@ -26,7 +26,14 @@ fn gen_slots(rng: &mut Rng, f: &mut Fmt, n_groups: usize) -> Vec<[u8; 32]> {
     let mut serial = 0u32;
     let mut short = |f: &mut Fmt, rng: &mut Rng, serial: &mut u32| -> [u8; 32] {
         *serial += 1;
-        let nm = match rng.below(4) {
+        let nm = match rng.below(6) {
+            4 | 5 => {
+                // first byte 0x05 (the stored form of a leading 0xE5) and other high bytes: the
+                // long-name checksum is defined over the bytes as stored
+                let mut n = name11(&format!("X{}.TXT", serial));
+                n[0] = *rng.pick(&[0x05u8, 0x05, 0xC5, 0xFF, 0x80]);
+                n
+            }
             0 => name11(&format!("S{}.TXT", serial)),
             1 => name11(&format!("LONGNA~{}.DAT", *serial % 10)),
             _ => name11(&format!("F{:05}.BIN", serial)),
